@@ -1,5 +1,6 @@
 import Poupool.Proofs.ActorLib
 import Poupool.Model.Tank
+import Poupool.Model.Guards
 import Poupool.Properties.C08
 /-!
 # C05 (i)  the mains fill valve is open only in the tank phases `fill` and `low`
@@ -64,5 +65,27 @@ theorem fill_opens_only_below_too_low (c : Cfg) (h : Int) : (enterFill c h).1 = 
   simp only [enterFill]; split <;> simp_all
 
 example : pollLow { hyst := 5, tooLow := 10, low := 30, high := 70 } 20 0 = .rearm 10 := by decide
+
+/-! ## level set in force, force-empty (Model/Guards.lean, exhaustively compared with the real methods) -/
+open Poupool.Guards in
+/-- the thresholds in force are those of the LAST mode set, whatever the history of mode changes (no cross-talk between
+    the eco and the overflow set) -/
+theorem level_set_follows_last_mode (el eh ol oh : Int) (hist : List String) (m : String) :
+    levelsAfter el eh ol oh (hist ++ [m]) = if m == "eco" then (el, eh) else (ol, oh) := by
+  unfold levelsAfter
+  cases h : hist ++ [m] with
+  | nil => simp at h
+  | cons x xs =>
+      have : (x :: xs).getLast! = m := by
+        rw [← h]; simp [List.getLast!_eq_getLast?_getD]
+      simp only [this]
+
+open Poupool.Guards in
+/-- force-empty: switching it on while the tank runs stops the whole system (then C01); switching it off while halted
+    restarts the tank from `fill`; every other combination does nothing -/
+theorem force_empty_cases (p v h : Bool) :
+    (forceEmpty p v h = .haltFiltration ↔ (p = false ∧ v = true ∧ h = false)) ∧
+    (forceEmpty p v h = .startFill ↔ (p = true ∧ v = false ∧ h = true)) := by
+  cases p <;> cases v <;> cases h <;> decide
 
 end Poupool.C05
